@@ -303,12 +303,23 @@ CONFIGS = {
 }
 
 
-def make_world(rng, wid, n, config=None, ids=None):
+def make_world(rng, wid, n, config=None, ids=None, short_at=None):
     ids = ids or rng.sample(ID_POOL, n)
+    w = _make_world(rng, wid, n, config, ids)
+    if short_at is not None and short_at < len(ids):
+        w["lens"][short_at] = rng.choice([1, 7, 19])  # certainly an utterance without frames ...
+        if short_at + 1 < len(ids):
+            w["lens"][short_at + 1] = rng.randint(150, 500)  # ... followed by one with frames
+    return w
+
+
+def _make_world(rng, wid, n, config, ids):
     return dict(
         wid=wid,
         ids=ids,
-        lens=[rng.randint(150, 500) for _ in ids],
+        # one utterance in five is too short to yield a frame (its file is an empty matrix; it must not leak into
+        # the features of the utterance the same process handles next)
+        lens=[rng.choice([1, 7, 19]) if rng.random() < 0.2 else rng.randint(150, 500) for _ in ids],
         fmts=[rng.choice(["npy", "npy", "pt", "wav"]) for _ in ids],
         sigseed=rng.randint(0, 10**6),
         seed=rng.randint(20, 10**6),
@@ -812,8 +823,8 @@ def run(ctx):
     worlds, plan = [], []
     cfgs = sorted(CONFIGS)
 
-    def add_world(n, config, ids=None, probe=None, **kw):
-        w = make_world(r, len(worlds), n, config, ids=ids)
+    def add_world(n, config, ids=None, probe=None, short_at=None, **kw):
+        w = make_world(r, len(worlds), n, config, ids=ids, short_at=short_at)
         if probe:
             w["probe"] = probe
         worlds.append(w)
@@ -825,7 +836,7 @@ def run(ctx):
         add_world(2, "raw_dither", exhaustive_ws=(0, 1, 2, 3), n_random=100, doubles=True)
         add_world(2, "stft_dither_deltas", exhaustive_ws=(0, 2), n_random=100)
         add_world(3, "stft_dither", exhaustive_ws=(0, 1, 2, 3), n_random=200)
-        add_world(3, "si_dither", exhaustive_ws=(0, 2), n_random=100)
+        add_world(3, "si_dither", exhaustive_ws=(0, 2), n_random=100, short_at=1)
         add_world(4, "raw_dither_preemph", exhaustive_ws=(0, 2, 3), n_random=300)
         add_world(5, None, exhaustive_ws=(0, 2), n_random=300)
         add_world(6, None, exhaustive_ws=(0, 3), n_random=300)
@@ -833,8 +844,8 @@ def run(ctx):
     else:
         add_world(1, "raw_dither", exhaustive_ws=(0, 2), n_random=4)
         add_world(2, "raw_dither", exhaustive_ws=(0, 2), n_random=25)
-        add_world(3, "stft_dither", exhaustive_ws=(0, 2), n_random=25)
-        add_world(3, "si_dither", exhaustive_ws=(3,), n_random=10)
+        add_world(3, "stft_dither", exhaustive_ws=(0, 2), n_random=25, short_at=0)
+        add_world(3, "si_dither", exhaustive_ws=(3,), n_random=10, short_at=1)
         add_world(4, "stft_dither_deltas", exhaustive_ws=(0,), n_random=30)
         add_world(4, "raw_dither_preemph", exhaustive_ws=(1,), kinds=(1,), n_random=20)
     # regression of the finding fixed by 7cfe6bc: ids that end in whitespace which
